@@ -107,6 +107,32 @@ func (c16) Gen(r *sim.Rand, tier string, run uint64) *sim.Scenario {
 			out = append(out, sim.Op{K: "setbase", N: []int64{int64(base)}})
 		}
 	}
+	if r.Chance(1, 5) {
+		// a nested split: part of the tail goes through a clone of the clone
+		ci, ai := -1, -1
+		for i, o := range out {
+			if o.K == "clone" && ci < 0 {
+				ci = i
+			}
+			if o.K == "append" && ai < 0 {
+				ai = i
+			}
+		}
+		if ai < 0 {
+			ai = len(out)
+		}
+		if ci >= 0 && ai-ci >= 2 {
+			a := ci + 1 + r.Intn(ai-ci-1)
+			b := a + 1 + r.Intn(ai-a)
+			var o2 []sim.Op
+			o2 = append(o2, out[:a]...)
+			o2 = append(o2, sim.Op{K: "clone2"})
+			o2 = append(o2, out[a:b]...)
+			o2 = append(o2, sim.Op{K: "append2"})
+			o2 = append(o2, out[b:]...)
+			out = o2
+		}
+	}
 	hasAppend := false
 	for _, o := range out {
 		if o.K == "append" {
@@ -265,6 +291,7 @@ func (c16) Exec(sc *sim.Scenario, env *sim.Env) *sim.Violation {
 	a := asm.NewEmitter(aTarget, gentext)
 	d := asm.NewEmitter(mk(acap), gentext)
 	var e, e2 *asm.Emitter
+	var outer *asm.Emitter // the first-level clone while a nested clone is being filled
 	listings := gentext && !nilTargets
 
 	var snapA emView // a at Clone time
@@ -307,6 +334,26 @@ func (c16) Exec(sc *sim.Scenario, env *sim.Env) *sim.Violation {
 			phase = 1
 			st.ProbeIf(nilTargets, "clone_of_nil_target")
 			continue
+		case "clone2":
+			if phase != 1 || outer != nil {
+				continue
+			}
+			var n *asm.Emitter
+			if p, pv := sim.RecoverLib(func() { n = e.Clone(mk(int(tailSize) + 8)) }); p || n == nil {
+				return &sim.Violation{Oracle: "clone_panic", Step: i, Msg: "nested Clone: " + sim.PanicString(pv)}
+			}
+			outer, e = e, n
+			st.Probe("nested_clone")
+			continue
+		case "append2":
+			if phase != 1 || outer == nil {
+				continue
+			}
+			if p, pv := sim.RecoverLib(func() { outer.Append(e) }); p {
+				return &sim.Violation{Oracle: "append_refusal_mismatch", Step: i, Msg: "nested Append into a clone with room panicked: " + sim.PanicString(pv)}
+			}
+			e, outer = outer, nil
+			continue
 		case "observe":
 			if phase != 1 {
 				continue
@@ -328,6 +375,13 @@ func (c16) Exec(sc *sim.Scenario, env *sim.Env) *sim.Violation {
 		case "append":
 			if phase != 1 {
 				continue
+			}
+			if outer != nil {
+				// an unfinished nested split: close it first
+				if p, pv := sim.RecoverLib(func() { outer.Append(e) }); p {
+					return &sim.Violation{Oracle: "append_refusal_mismatch", Step: i, Msg: "nested Append panicked: " + sim.PanicString(pv)}
+				}
+				e, outer = outer, nil
 			}
 			eBefore := snapEmitter(e)
 			now, v := viewEmitter(a, env, listings)
